@@ -342,7 +342,6 @@ package chain
 //@ func (*Chain).VerifyNotarization
 //@   prop C31
 //@   requires c != nil && round >= 0 && rheld(c.mbMutex) == 0 && held(c.mbMutex) == 0
-//@   ensures[tickets-present] err == nil ==> bvt != nil
 //@   ensures[no-verifier-twice] err == nil ==> forall i in 0..len(bvt) :: (forall j in i+1..len(bvt) :: bvt[i].VerifierID != bvt[j].VerifierID)
 //@   ensures[every-ticket-verified-for-this-block] err == nil ==> forall i in 0..len(bvt) :: tk_valid(bvt[i].VerifierID, bvt[i].Signature, hash, round)
 //@   at-call VerifyTickets assert[threshold-reached-before-signatures-are-checked] $arg2 == hash && $arg4 == round
